@@ -31,6 +31,16 @@ P = {
   COMMON_NOTE + "Byte-level JSON syntax of files is parsed by the model's own strict parser; Go's replacement of invalid UTF-8/lone surrogates and duplicated slice/struct members are outside the modelled domain.",
   "Lean 4 proof (schema-level decode/encode) + mutation-based differential correspondence of both loaders",
   "DESIGN.md §5 C12"),
+ "C06": (True,
+  "Lean model of time.Parse for the one expiry layout (incl. what Go accepts beyond it: 1-digit hour, fractional seconds) and of VerifyLayoutExpiration; theorems: acceptance implies a parsed calendar stamp not in the past, unparseable or past stamps are rejected for every clock value; kernel-evaluated grammar table. Pipeline theorems (expiry consulted by both entry points before links are read / inspections run) are stated over the pipeline model. Every run compares parse and expiry verdicts of the real library (ValidateMetablock / VerifyLayoutExpiration against the clock) with the model on thousands of strings: whole calendar range, seconds..days around now, other layouts, single-character mutations.",
+  COMMON_NOTE + "The OS clock is read by the harness and handed to the model; stamps closer than 10 s to now are not generated.",
+  "Lean 4 proof (expiry decision) + differential correspondence on date strings and on the full pipeline",
+  "DESIGN.md §5 C06"),
+ "C18": (True,
+  "Lean model of SubstituteParameters incl. strings.Replacer semantics, with a declarative single-pass specification; theorems (see evidence for the list checked on this run): replacer meets the spec and the spec is functional, order-freeness, exact set of rewritten fields, invalid names rejected, empty dictionary = identity. Every run compares the whole returned layout AND the caller's layout after the call with the model on layouts whose every string field carries markers (known, unknown, adjacent, nested-looking, values containing markers), plus the replacer alone.",
+  COMMON_NOTE,
+  "Lean 4 proof (replacer = single-pass spec, field exactness) + differential correspondence on marker-laden layouts",
+  "DESIGN.md §5 C18"),
 }
 
 ALL = ["C%02d" % i for i in range(1, 21)]
